@@ -106,13 +106,20 @@ def header_nc(rel):
     return _hdr_cache[rel]
 
 
-def locate(rel, anchor, ordinal=0, count=None, body_match=None):
+def locate(rel, anchor, ordinal=0, count=None, body_match=None, after=None):
     """Find the function whose signature matches the regex `anchor` (matched on
     the comment-blanked header); `ordinal` picks among several matches that are
     followed by a body; `count` (optional) is the expected number of such matches."""
     raw, nc, mask = header_nc(rel)
     hits = []
-    for m in re.finditer(anchor, nc):
+    start_at = 0
+    if after:
+        # `after`: regex that must match exactly once (e.g. 'class and_operator final'); the definition is searched from there on (member functions of a class)
+        ma = list(re.finditer(after, nc))
+        if len(ma) != 1:
+            raise Broken('anchor %r in %s: the region start %r matched %d times, expected 1' % (anchor, rel, after, len(ma)))
+        start_at = ma[0].end()
+    for m in re.compile(anchor).finditer(nc, start_at):
         # after the anchor: find the parameter list's '(' (the anchor should end at or before it)
         # the parameter list is the first '(' of the match whose ')' lies at/after the end of the match
         # (anchors may start in the return type, e.g. to tell enable_if overloads apart)
@@ -286,13 +293,13 @@ class FuncSpec:
       slice_to  optional regex (matched in the text kept by slice_from, exactly once): the text from its match on is dropped too
     """
     def __init__(self, name, file, anchor, csig, ordinal=0, count=None, sig_check=None, body_match=None, contract=(),
-                 aliases=None, rules=(), loops=None, prologue='', common=True, epilogue='', slice_from=None, slice_to=None):
+                 aliases=None, rules=(), loops=None, prologue='', common=True, epilogue='', slice_from=None, slice_to=None, after=None):
         self.__dict__.update(locals())
         del self.__dict__['self']
 
 
 def render_func(fs, info):
-    loc = locate(fs.file, fs.anchor, fs.ordinal, fs.count, fs.body_match)
+    loc = locate(fs.file, fs.anchor, fs.ordinal, fs.count, fs.body_match, getattr(fs, 'after', None))
     if fs.sig_check and not re.search(fs.sig_check, oneline(loc.sig)):
         raise Broken('EXTRACTION-BROKEN %s: signature %r does not match %r' % (fs.name, oneline(loc.sig), fs.sig_check))
     what = '%s (%s:%d)' % (fs.name, fs.file, loc.line_sig)
